@@ -37,11 +37,19 @@ fn main() {
                 a.space::<5, 4>(u);
             }
         }
+        if a.cx.shard.0 == 0 && a.cx.only_hist.is_none() {
+            a.zst::<2, 3>();
+            a.zst::<1, 1>();
+            a.zst::<3, 0>();
+        }
         a.cx.rep.exhaustive = a.cx.only_hist.is_none();
         if random > 0 {
             a.random::<16, 32>(random / 3, 20);
             a.random::<32, 16>(random / 3, 20);
             a.random::<8, 8>(random / 3, 10);
+            // capacities beyond the 32-, 64- and 256-slot marks
+            a.random::<70, 40>(2, 80);
+            a.random::<40, 300>(1, 320);
         }
     }
     let ops = a.ops;
